@@ -501,6 +501,7 @@ _SIZE_B = 0xFF
 _SIZE_H = 0xFFFF
 _SIZE_L = 0xFFFFFFFF
 _IPV4_PARTS = 4  # an IPv4 address written in dotted decimal has four parts
+_EXTENDED_COMMUNITY_HEX_LENGTH = 18  # '0x' and the 16 hexadecimal digits of the 8 octets
 
 
 def _digit(string: str) -> bool:
@@ -569,9 +570,11 @@ def _encode(command: str, components: list[int], parts: list[str]) -> tuple[byte
 
 
 def _extended_community_hex(value: str) -> ExtendedCommunity:
-    # we could raise if the length is not 8 bytes (16 chars)
-    if len(value) % 2:
-        raise ValueError('invalid extended community {}'.format(value))
+    # an extended community is 8 octets (RFC 4360): '0x' and 16 hexadecimal digits
+    if len(value) != _EXTENDED_COMMUNITY_HEX_LENGTH:
+        raise ValueError(
+            'invalid extended community {}\n  Expecting 0x followed by 16 hexadecimal digits'.format(value)
+        )
     raw = b''.join(bytes([int(value[_ : _ + 2], 16)]) for _ in range(2, len(value), 2))
     return cast(ExtendedCommunity, ExtendedCommunity.unpack_attribute(raw, None))
 
